@@ -7,7 +7,8 @@ using namespace vt;
 namespace {
 
 const std::vector<std::string> kSpecial = {"snap", "pre", "alpha", "beta", "rc"};
-const std::vector<std::string> kWords = {"snap", "pre", "alpha", "beta", "rc", "final", "p", "a", "b", "patch", "zeta", "gamma"};
+// (near misses of the pre-release words included: the end-of-string rule once matched them as prefixes)
+const std::vector<std::string> kWords = {"snap", "pre", "alpha", "beta", "rc", "final", "p", "a", "b", "patch", "zeta", "gamma", "prep", "pr", "alphabet", "alph", "betamax", "snapshot", "sna", "rcx", "r"};
 
 struct Ver { std::vector<long> nums; std::string word; long sufnum = -1; long pad = 0; /* 2 bits per component: leading zeros */ };
 std::string render(const Ver &v) {
